@@ -60,7 +60,9 @@ type SQLSite struct {
 	Named       map[string]Binding // named arguments ($X / @x), incl. synthetic ones
 	DynamicArgs bool
 	Holes       int
-	FormatHoles int    // caller text interpolated into a Sprintf format string
+	FormatHoles int // caller text interpolated into a Sprintf format string
+	XformHoles  int // text that went through a function outside the package before it reached the statement
+	XformBy     string
 	IsSchema    bool   // executes the embedded schema script
 	evalFrame   *frame // when set, positional bindings are evaluated in this calling context
 }
@@ -164,6 +166,7 @@ func (m *Model) foldSite(site *SQLSite, args []ssa.Value) {
 	}
 	site.Holes = ev.holes
 	site.FormatHoles = ev.fmtHoles
+	site.XformHoles, site.XformBy = ev.xformHoles, ev.xformBy
 	for name, b := range ev.synth {
 		site.Named[name] = Binding{V: b.v, Fr: b.fr}
 	}
